@@ -30,6 +30,9 @@ GLOBAL_ASSUMPTIONS = [
 ]
 
 
+NATIVE_KINDS = ("native", "native-all-shapes", "native-all-classes", "bounded-native", "regex-quotient", "bounded-grid")
+
+
 def _sha(s):
     return hashlib.sha256(s.encode()).hexdigest()[:16]
 
@@ -135,11 +138,17 @@ class Session:
                     # "does not raise under the precondition": the path must be infeasible
                     self._add(name, fn, "no-raise", p, "no-raise:%s" % type(p.exc).__name__, ctx.hyps(), z3.BoolVal(False), shape)
                 # reachability / vacuity: the finished path's condition must be satisfiable
-                self._add(name, fn, "cover", p, "cover", ctx.hyps(), z3.BoolVal(False), shape)
+                # (every decision was checked feasible when taken; re-checked in full for the
+                # first 40 paths of a contract and whenever a feasibility query was undecided)
+                if paths <= 40 or ctx.feas_unknown:
+                    self._add(name, fn, "cover", p, "cover", ctx.hyps(), z3.BoolVal(False), shape)
         except SymbolicError as e:
             self.undecided.append("%s: %s" % (name, e))
         except Exception:
             self.crashes.append("%s: %s" % (name, traceback.format_exc()))
+        if os.environ.get("VERIF_PROGRESS"):
+            sys.stderr.write("[%6.1fs] %s: paths=%d pruned=%d feas=%d feas_unknown=%d explore=%.1fs vcs=%d\n" % (time.time() - self.t0, name, paths, st.pruned, st.feas_queries, st.feas_unknown, st.wall, len(self.vcs)))
+            sys.stderr.flush()
         self.stats[name] = dict(paths=paths, pruned=st.pruned, feasibility_queries=st.feas_queries, feasibility_unknown=st.feas_unknown, explore_s=round(st.wall, 3))
         if paths < min_paths and not any(name in u for u in self.undecided + self.crashes):
             self.crashes.append("%s: only %d feasible path(s) (vacuous precondition?)" % (name, paths))
@@ -149,8 +158,17 @@ class Session:
 
     def _add(self, contract, fn, kind, path, oname, hyps, goal, shape, spec=False):
         vid = "%s/%s@%s" % (contract, oname, path.tag)
+        g0 = z3.simplify(goal)
+        if z3.is_true(g0) and kind not in ("cover", "must-fail"):
+            v = VC(id=vid, contract=contract, fn=fn, kind=kind, path=path.tag, smt2=None, expect="unsat", shape=shape, spec=spec)
+            v.result = dict(status="unsat", backend="evaluated-true", time_s=0.0, model=None, detail="goal evaluated to True on this path")
+            self.vcs.append(v)
+            return
         try:
             text = query.obligation_smt2(hyps, goal)
+            raw = query.obligation_smt2_raw(hyps, goal)
+            if raw is not None:
+                text = text + "\n;;;RAW;;;\n" + raw
         except Exception as e:
             self.crashes.append("%s: encoding failed: %r" % (vid, e))
             return
@@ -177,6 +195,7 @@ class Session:
     # ------------------------------------------------------------------ verdicts
     def classify(self):
         ok, failed, undec, vac = [], [], [], []
+        twins = {}
         for v in self.vcs:
             st = v.result["status"]
             if v.kind == "cover":
@@ -184,10 +203,7 @@ class Session:
                     vac.append(v)  # an explored path is infeasible -> engine inconsistency
                 continue
             if v.kind == "must-fail":
-                if st == "unsat":
-                    vac.append(v)
-                elif st == "unknown":
-                    undec.append(v)
+                twins.setdefault(re.sub(r"@[^@]*$", "", v.id), []).append(v)
                 continue
             if st == "unsat":
                 ok.append(v)
@@ -195,6 +211,15 @@ class Session:
                 failed.append(v)
             else:
                 undec.append(v)
+        # a deliberately wrong twin must be refuted on at least one path
+        self.twins_refuted = 0
+        for name, vs in twins.items():
+            if any(v.result["status"] == "sat" for v in vs):
+                self.twins_refuted += 1
+            elif all(v.result["status"] == "unsat" for v in vs):
+                vac.append(vs[0])
+            else:
+                undec.append(vs[0])
         return ok, failed, undec, vac
 
     def counts(self):
@@ -243,6 +268,10 @@ class Session:
                     continue
             rp = dict(property=self.prop, obligation=gid, function=v.fn, kind=v.kind, paths=[x.path for x in vs], backend=v.result.get("backend"), solver_model=model, solver_detail=v.result.get("detail"), source=self.functions.get(v.fn))
             reproduced = False
+            if v.smt2 is None and model and v.kind in NATIVE_KINDS:
+                # decided by executing the real code on this very input: the witness IS a native replay
+                reproduced = True
+                rp["native_replay"] = dict(reproduced=True, input=model, note="obligation decided by native execution of the real functions")
             rep = self.replayers.get(cname)
             if rep is not None:
                 try:
@@ -294,7 +323,7 @@ class Session:
             undecided=len(undec) + len(self.undecided),
             distinct_obligation_names=len(names),
             covers_checked=len([v for v in self.vcs if v.kind == "cover"]),
-            must_fail_twins_refuted=len([v for v in self.vcs if v.kind == "must-fail" and v.result["status"] == "sat"]),
+            must_fail_twins_refuted=getattr(self, "twins_refuted", 0),
             checker_cmd=checker_cmd,
             trusted_base=self.trusted,
             backends=by_backend,
@@ -338,9 +367,11 @@ def _resolve_outside(vc, witness):
         lit = str(int(f)) if isint else "(/ %d.0 %d.0)" % (f.numerator, f.denominator)
         conj.append("(= %s %s)" % (var, lit))
     extra = "(assert (not (and %s)))\n" % " ".join(conj)
-    i = text.rfind("(check-sat)")
-    text2 = text[:i] + extra + text[i:]
-    return solve.solve_text(text2, 60.0)
+    parts = []
+    for part in text.split("\n;;;RAW;;;\n"):
+        i = part.rfind("(check-sat)")
+        parts.append(part[:i] + extra + part[i:])
+    return solve.solve_text("\n;;;RAW;;;\n".join(parts), 60.0)
 
 
 def _witness_ok(witness, model):
